@@ -2975,6 +2975,29 @@ class StateEngine(object):
                     context_state["Branch"] = []
 
                 start = get_start_index(context, entering_map=True)
+
+                """
+                Evaluate the ItemSelector for every item on first entering the
+                Map state, before its "Branch" entry is added to the context
+                and before any iteration is launched, so that a failure fails
+                the Map state as a whole with nothing left running and the
+                context seen by any Retrier or Catcher left as it was.
+                """
+                selected = {}
+                if item_selector and start == 0:
+                    try:
+                        for index, item in enumerate(items_path):
+                            context["Map"] = {"Item": {"Index": index, "Value": item}}
+                            selected[index] = evaluate_payload_template(
+                                input, context, item_selector
+                            )
+                    except Exception:
+                        if length and len(context_state["Branch"]) == 0:
+                            del context_state["Branch"]
+                        raise
+                    finally:
+                        context.pop("Map", None)
+
                 if length:
                     if start == 0:
                         if len(context_state["Branch"]) > 0:
@@ -3039,7 +3062,9 @@ class StateEngine(object):
                     context_state["Name"] = map_state_name
                     context_state["EnteredTime"] = map_state_entered
 
-                    if item_selector:
+                    if index in selected:
+                        parameters = selected[index]
+                    elif item_selector:
                         # Store the index and value in the context as described above.
                         context["Map"] = {
                             "Item": {
